@@ -19,9 +19,9 @@ func init() { checks["C20"] = c20{} }
 func (c20) Level() string { return "fault_enumeration" }
 func (c20) NumCases(tier string) int {
 	if tier == "thorough" {
-		return 12000
+		return 60000
 	}
-	return 600
+	return 3000
 }
 func (c20) Rule() string {
 	return "case = generated (engine config, template tree, bindings[, cached include files]) x entry point (FRender / ParseAndFRender); a fault-free render records the W Write calls; then for EVERY write index k in [0,W) (sampled to 400 incl. first/last 50 when W>400), accept in {0, random strict prefix, len-1} and mode in {sticky, transient} the render is repeated with the writer failing at call k. An execution is non-trivial if the fault fired and W>=2; distinct by hash(template source, bindings, entry point, k, accept, mode)."
@@ -287,6 +287,9 @@ func c20Violation(c *Ctx, cs *C20Case, f c20Fail, idx int) *Violation {
 	orig := *cs
 	orig.K, orig.Accept, orig.Sticky = f.k, f.accept, f.sticky
 	ob, _ := json.Marshal(orig)
+	if !c.mayMinimise(f.sig) {
+		return &Violation{Property: c.Prop, Clause: f.clause, Detail: f.detail, Signature: f.sig, Seed: c.Seed, Index: idx, Case: ob}
+	}
 	// minimise: smaller tree / env / includes that still fail the same clause
 	deadline := time.Now().Add(20 * time.Second)
 	cur := orig
